@@ -69,6 +69,8 @@ impl<Consumer> Pool<Consumer>
     pub(crate) fn add(&self, key_hash: KeyHash) {
         let pool_size = self.pool_size.0;
         let index = thread_rng().gen_range(0..pool_size);
+        #[cfg(cached_verif)]
+        crate::cache::verif::log_oracle(crate::cache::verif::Oracle::PoolIndex(index));
         self.buffers[index].write().add(key_hash);
     }
 }
@@ -198,4 +200,42 @@ mod tests {
         assert_eq!(8, total_keys);
         assert_eq!(8, pool.buffers[0].read().key_hashes.len());
     }
+}
+
+#[cfg(cached_verif)]
+impl<Consumer> Pool<Consumer>
+    where Consumer: BufferConsumer {
+    pub(crate) fn verif_buffers(&self) -> Vec<Vec<KeyHash>> {
+        self.buffers.iter().map(|buffer| buffer.read().key_hashes.clone()).collect()
+    }
+}
+
+#[cfg(cached_verif)]
+pub struct VerifPoolConsumer {
+    pub batches: parking_lot::Mutex<Vec<Vec<KeyHash>>>,
+}
+
+#[cfg(cached_verif)]
+impl BufferConsumer for VerifPoolConsumer {
+    fn accept(&self, event: BufferEvent) {
+        if let BufferEvent::Full(key_hashes) = event { self.batches.lock().push(key_hashes); }
+    }
+}
+
+/// Direct wrapper around the access pool with a recording consumer, for component-level correspondence.
+#[cfg(cached_verif)]
+pub struct VerifPool {
+    pool: Pool<VerifPoolConsumer>,
+    consumer: Arc<VerifPoolConsumer>,
+}
+
+#[cfg(cached_verif)]
+impl VerifPool {
+    pub fn new(pool_size: usize, buffer_size: usize) -> Self {
+        let consumer = Arc::new(VerifPoolConsumer { batches: parking_lot::Mutex::new(Vec::new()) });
+        VerifPool { pool: Pool::new(PoolSize(pool_size), BufferSize(buffer_size), consumer.clone()), consumer }
+    }
+    pub fn add(&self, key_hash: KeyHash) { self.pool.add(key_hash) }
+    pub fn buffers(&self) -> Vec<Vec<KeyHash>> { self.pool.verif_buffers() }
+    pub fn batches(&self) -> Vec<Vec<KeyHash>> { self.consumer.batches.lock().clone() }
 }
